@@ -32,6 +32,9 @@ MCDefaults ==
     [] Variant = "renamed_any" -> << [name |-> "n", body |-> RolesB({"dflt"}), dep |-> [name |-> "o", body |-> AnyRule], removal |-> 0] >>
     [] Variant = "same_any" -> << [name |-> "n", body |-> RolesB({"dflt"}), dep |-> [name |-> "n", body |-> AnyRule], removal |-> 0] >>
     [] Variant = "any_new" -> << [name |-> "n", body |-> AnyRule, dep |-> [name |-> "o", body |-> RolesB({"old"})], removal |-> 0] >>
+    \* the old name is itself still a policy (a same-name deprecation, registered first) next to the renamed one
+    [] Variant = "shared_same" -> << [name |-> "o", body |-> RolesB({"dflt"}), dep |-> [name |-> "o", body |-> RolesB({"old"})], removal |-> 0],
+                                     [name |-> "n", body |-> RolesB({"dflt"}), dep |-> [name |-> "o", body |-> RolesB({"old"})], removal |-> 0] >>
     [] Variant = "split"   -> << [name |-> "n", body |-> RolesB({"dflt"}), dep |-> [name |-> "o", body |-> RolesB({"old"})], removal |-> 0],
                                  [name |-> "n2", body |-> RolesB({"old"}), dep |-> [name |-> "o", body |-> RolesB({"old"})], removal |-> 0] >>
 
@@ -60,6 +63,8 @@ Content(kind, f, t) ==
     \* an override under the old name that is a role check whose role is spelled like the NEW policy's
     \* name (not the alias rule:<new>): it governs like any other
     [] kind = "rolenew" -> [NoRules EXCEPT !["o"] = RolesB({"n"})]
+    \* an override under the old name that reads exactly like the NEW default: it governs like any other
+    [] kind = "oldasnew" -> [NoRules EXCEPT !["o"] = RolesB({"dflt"})]
 
 Init ==
   /\ fs = [f \in AllFiles |-> IF f = "main" /\ StartWithMain THEN [exists |-> TRUE, mtime |-> 1, content |-> Content("new", "main", 1)] ELSE Absent]
